@@ -62,6 +62,13 @@ type docCfg struct {
 	// 3 tag reference without '@', 4 upper-case host, 5 several '@'. Blob: 0 unknown name (or no global statement),
 	// 1 unknown name, 2 blank name
 	NoneKind int `json:"none_kind,omitempty"`
+	// SameName (blob): the blob statement carries the SAME NAME as the OCI statement ("p")
+	SameName bool `json:"same_name,omitempty"`
+	// AltLevel (OCI): the document holds a second statement (scope reg.example/second) with this level;
+	// UseAlt: the request addresses that one
+	AltLevel string            `json:"alt_level,omitempty"`
+	AltOv    map[string]string `json:"alt_override,omitempty"`
+	UseAlt   bool              `json:"use_alt,omitempty"`
 }
 
 type pmCfg struct {
@@ -199,6 +206,9 @@ var actName = map[trustpolicy.ValidationAction]string{trustpolicy.ActionEnforce:
 
 // levelTerm asks the real GetVerificationLevel what the statement's level is.
 func levelTerm(d docCfg) string {
+	if d.UseAlt {
+		d.Level, d.Ov = d.AltLevel, d.AltOv
+	}
 	sv := trustpolicy.SignatureVerification{VerificationLevel: d.Level, Override: ovMap(d.Ov)}
 	vl, err := sv.GetVerificationLevel()
 	if err != nil || vl == nil {
@@ -951,6 +961,14 @@ func (e *env) build(c *lcase, sc scCfg) (v libVerifier, pt *parts, err error) {
 		opts.OCITrustPolicy = OCIPolicy(c.OCI.Level, ovMap(c.OCI.Ov), st, id, "")
 		// more than one scope, not in sorted order (an in-place normalisation of the caller's document shows)
 		opts.OCITrustPolicy.TrustPolicies[0].RegistryScopes = []string{TestScope, "a.example/first", "reg.example/b"}
+		if c.OCI.AltLevel != "" {
+			alt := trustpolicy.OCITrustPolicy{Name: "p2", RegistryScopes: []string{"reg.example/second"},
+				SignatureVerification: trustpolicy.SignatureVerification{VerificationLevel: c.OCI.AltLevel, Override: ovMap(c.OCI.AltOv)}}
+			if c.OCI.AltLevel != "skip" {
+				alt.TrustStores, alt.TrustedIdentities = stores, identities
+			}
+			opts.OCITrustPolicy.TrustPolicies = append(opts.OCITrustPolicy.TrustPolicies, alt)
+		}
 	}
 	if c.Blob.Kind != 0 {
 		st, id := stores, identities
@@ -958,7 +976,7 @@ func (e *env) build(c *lcase, sc scCfg) (v libVerifier, pt *parts, err error) {
 			st, id = nil, nil
 		}
 		opts.BlobTrustPolicy = &trustpolicy.BlobDocument{Version: "1.0", TrustPolicies: []trustpolicy.BlobTrustPolicy{{
-			Name:                  "bp",
+			Name:                  blobStatementName(c.Blob),
 			SignatureVerification: trustpolicy.SignatureVerification{VerificationLevel: c.Blob.Level, Override: ovMap(c.Blob.Ov)},
 			TrustStores:           st, TrustedIdentities: id, GlobalPolicy: c.Blob.Global && c.Blob.Kind >= 2,
 		}}}
@@ -1008,7 +1026,17 @@ func (e *env) ociRef(d docCfg) string {
 		}
 		return "reg.example/elsewhere@" + e.desc.Digest.String()
 	}
+	if d.UseAlt {
+		return "reg.example/second@" + e.desc.Digest.String()
+	}
 	return e.ref
+}
+
+func blobStatementName(d docCfg) string {
+	if d.SameName {
+		return "p" // the name kit.OCIPolicy gives the OCI statement
+	}
+	return "bp"
 }
 
 func blobPolicyName(d docCfg) string {
@@ -1027,7 +1055,7 @@ func blobPolicyName(d docCfg) string {
 	if d.Global {
 		return ""
 	}
-	return "bp"
+	return blobStatementName(d)
 }
 
 func (e *env) userMeta(s scCfg) map[string]string {
